@@ -159,6 +159,21 @@ func Boot(img *Image) *FS {
 	return f
 }
 
+// Restore replaces the contents of the file system with img. No handle may be
+// open (harness-side; not a yield point).
+func (f *FS) Restore(img *Image) {
+	if len(f.open) != 0 {
+		panic("simos: Restore with open handles")
+	}
+	f.nodes = map[string]*inode{"/": {dir: true, gen: f.snapGen}}
+	for d := range img.Dirs {
+		f.nodes[d] = &inode{dir: true}
+	}
+	for p, data := range img.Files {
+		f.nodes[p] = &inode{data: data[:len(data):len(data)], gen: 0}
+	}
+}
+
 // Clone deep-copies an image (for harness-side mutation such as byte flips).
 func (img *Image) Clone() *Image {
 	c := &Image{Files: make(map[string][]byte, len(img.Files)), Dirs: map[string]bool{}}
